@@ -371,7 +371,14 @@ func runC18(c c18Case) kit.Result {
 		res.Err = err
 		return res
 	}
-	defer w.Close()
+	// closing a bbolt database waits for open transactions: when the verdict is "transactions are stuck / leaked"
+	// the database is abandoned instead (its temporary directory is removed with the run)
+	abandon := false
+	defer func() {
+		if !abandon {
+			w.Close()
+		}
+	}()
 	// grow the file and bbolt's memory map once (then free the pages): the workload never makes bbolt re-map the file
 	if err := w.Z.Db.Update(kit.NewCtx(), func(ctx boltz.MutateContext) error {
 		pad, err := ctx.Tx().CreateBucket([]byte("zz-pad"))
@@ -525,6 +532,7 @@ func runC18(c c18Case) kit.Result {
 	select {
 	case <-done:
 	case <-time.After(60 * time.Second):
+		abandon = true
 		res.Err = fmt.Errorf("goroutines did not finish within 60 s (inconclusive)")
 		return res
 	}
@@ -539,6 +547,7 @@ func runC18(c c18Case) kit.Result {
 	// every goroutine has finished and one more read transaction has been opened and closed on this goroutine, so
 	// bbolt's open-transaction count is exact now (while transactions end concurrently the statistic can lag)
 	if n := w.Z.Db.Stats().OpenTxN; n != 0 {
+		abandon = true
 		res.Err = fmt.Errorf("%d read transaction(s) are still open after every reader, helper and the writer have finished\nworkload: %+v", n, c)
 		return res
 	}
